@@ -130,7 +130,7 @@ def plan_c06(rng, pairs):
             if k0 is None:
                 k0 = k1
                 operand_checks(c, k1)
-            c.check("formula %s R%d R%d =" % (t, k1, k2))
+            c.check("sameregion %d %d %s" % (k1, k2, t))
             if exact:
                 c.check("samerings %d %d samedir" % (k1, k2))
         # self operations
@@ -220,7 +220,7 @@ def plan_c07(rng, pairs):
                 a2 = var(a, kind) if "a" in side else a
                 b2 = var(b, kind) if "b" in side else b
                 k = c.run(bool_req("f64", op, False, BUDGET, "MM", a2, b2))
-                c.check("formula %s R%d R%d =" % (t, k0, k))
+                c.check("sameregion %d %d %s" % (k0, k, t))
                 if exact or kind in ("rep", "rep3"):
                     c.check("samerings %d %d anydir" % (k0, k))
             # the four trait implementations
@@ -347,7 +347,7 @@ def plan_c09(rng, pairs):
                 if present:
                     c.check("formula %s R%d R%d A%d | =" % (t, k, k0, kp))
                 else:
-                    c.check("formula %s R%d R%d =" % (t, k, k0))
+                    c.check("sameregion %d %d %s" % (k, k0, t))
                 c.check("formula %s R%d A%d B%d %s =" % (t, k, k, k, OPNAME[op]))
         cases.append(c)
     return cases
